@@ -23,6 +23,10 @@ EXC_TREE = {
     'MemoryError': 'Exception', 'NameError': 'Exception', 'UnboundLocalError': 'NameError',
     'OSError': 'Exception', 'TimeoutError': 'OSError', 'ConnectionError': 'OSError',
     'FileNotFoundError': 'OSError', 'PermissionError': 'OSError', 'InterruptedError': 'OSError',
+    'BrokenPipeError': 'ConnectionError', 'ConnectionRefusedError': 'ConnectionError',
+    'ConnectionResetError': 'ConnectionError', 'ConnectionAbortedError': 'ConnectionError',
+    'FileExistsError': 'OSError', 'BlockingIOError': 'OSError', 'ChildProcessError': 'OSError',
+    'IsADirectoryError': 'OSError', 'NotADirectoryError': 'OSError', 'ProcessLookupError': 'OSError',
     'RuntimeError': 'Exception', 'NotImplementedError': 'RuntimeError', 'RecursionError': 'RuntimeError',
     'StopIteration': 'Exception', 'SyntaxError': 'Exception', 'SystemError': 'Exception',
     'TypeError': 'Exception', 'ValueError': 'Exception', 'UnicodeError': 'ValueError',
@@ -30,6 +34,16 @@ EXC_TREE = {
     'Warning': 'Exception', 'DeprecationWarning': 'Warning', 'UserWarning': 'Warning',
     'struct.error': 'Exception', 'binascii.Error': 'ValueError',
 }
+
+OSERROR_BY_ERRNO = {}
+for _n, _c in (('EAGAIN', 'BlockingIOError'), ('EALREADY', 'BlockingIOError'), ('EWOULDBLOCK', 'BlockingIOError'),
+               ('EINPROGRESS', 'BlockingIOError'), ('EPIPE', 'BrokenPipeError'), ('ESHUTDOWN', 'BrokenPipeError'),
+               ('ECHILD', 'ChildProcessError'), ('ECONNABORTED', 'ConnectionAbortedError'),
+               ('ECONNREFUSED', 'ConnectionRefusedError'), ('ECONNRESET', 'ConnectionResetError'),
+               ('EEXIST', 'FileExistsError'), ('ENOENT', 'FileNotFoundError'), ('EINTR', 'InterruptedError'),
+               ('EISDIR', 'IsADirectoryError'), ('ENOTDIR', 'NotADirectoryError'), ('EACCES', 'PermissionError'),
+               ('EPERM', 'PermissionError'), ('ESRCH', 'ProcessLookupError'), ('ETIMEDOUT', 'TimeoutError')):
+    OSERROR_BY_ERRNO[getattr(_errno, _n)] = _c
 
 PLAIN_CLASSES = ['int', 'bool', 'str', 'bytes', 'bytearray', 'list', 'tuple', 'dict', 'set', 'frozenset',
                  'float', 'type', 'NoneType', 'memoryview', 'function', 'deque', 'range', 'module',
@@ -250,6 +264,11 @@ class World(object):
 
     def builtin_new(self, ex, cls, args, kwargs):
         if cls.issubclass(self.bclasses['BaseException']):
+            if cls is self.bclasses['OSError'] and len(args) >= 2 and isinstance(args[0], int):
+                # OSError(errno, strerror) constructs the errno-specific subclass
+                sub = OSERROR_BY_ERRNO.get(args[0])
+                if sub:
+                    cls = self.bclasses[sub]
             o = SObj(cls)
             self.builtin_init(ex, o, args, kwargs)
             return o
